@@ -34,6 +34,7 @@ pub fn __tmap_entries<'a>(m: &'a IndexMap<u32, IndexMap<InpId, u32>>) -> (r: Vec
     ensures
         forall|i: int| 0 <= i < r@.len() ==> m@.contains_key(*(#[trigger] r@[i]).0) && m@[*r@[i].0] == r@[i].1@,
         forall|k: u32| m@.contains_key(k) ==> exists|i: int| 0 <= i < r@.len() && *(#[trigger] r@[i]).0 == k,
+        forall|i: int, j: int| 0 <= i < j < r@.len() ==> *(#[trigger] r@[i]).0 != *(#[trigger] r@[j]).0,
 { unimplemented!() }
 
 } // verus!
